@@ -2,3 +2,4 @@ pub mod closest;
 pub mod hash;
 pub mod id;
 pub mod rtable;
+pub mod server;
